@@ -1,6 +1,7 @@
 import LinOp.Core.Basic
 import LinOp.Core.Parse
 import LinOp.C02.Batch
+import LinOp.C02.BProg
 /-! Line-protocol driver for the batched layer of C02 (LinOp/C02/Batch.lean) over `Rat`.
 One line = one batched expression in prefix form; output
 `ok <class tree with batch shapes> <batch shape> <rows> <cols> <values of every batch element, row-major>`,
@@ -99,6 +100,20 @@ partial def pExpr : P Res
         | none => .err .notSupported, r)
   | _ => none
 
+/-- programs of `BProg` (LinOp/C02/BProg.lean), run by `beval` — the function `beval_refines` is about:
+`L <op>` leaf, `RE <shape> p` `_expand_batch`, `RP <dims> p` `_permute_batch`, `RU d p` `_unsqueeze_batch`, `RS d p` `_sum_batch`,
+`RX d p` `_prod_batch`, `A p q` `SumLinearOperator(p, q)`, `M p q` `MatmulLinearOperator(p, q)`. -/
+partial def pProg : P (BProg Q)
+  | "L" :: r => do let (o, r) ← pOp r; pure (.leaf o, r)
+  | "RE" :: r => do let (S, r) ← pShape r; let (p, r) ← pProg r; pure (.rw (.expand S) p, r)
+  | "RP" :: r => do let (ds, r) ← pShape r; let (p, r) ← pProg r; pure (.rw (.permute ds) p, r)
+  | "RU" :: r => do let (d, r) ← pNat r; let (p, r) ← pProg r; pure (.rw (.unsqueeze d) p, r)
+  | "RS" :: r => do let (d, r) ← pNat r; let (p, r) ← pProg r; pure (.rw (.sum d) p, r)
+  | "RX" :: r => do let (d, r) ← pNat r; let (p, r) ← pProg r; pure (.rw (.prod d) p, r)
+  | "A" :: r => do let (p, r) ← pProg r; let (q, r) ← pProg r; pure (.add p q, r)
+  | "M" :: r => do let (p, r) ← pProg r; let (q, r) ← pProg r; pure (.matmul p q, r)
+  | _ => none
+
 /-- all multi-indices of a batch shape, row-major. -/
 def allIdx : Shape → List BIdx
   | [] => [[]]
@@ -123,6 +138,13 @@ def stepLine (_ : Unit) (line : String) : Unit × String :=
     match parseNats? a, parseNats? b with
     | some bs, some osh => ((), s!"kind {showKind (mulKind bs osh)}")
     | _, _ => ((), "bad-line")
+  | "prog" :: ws =>
+    match pProg ws with
+    | some (p, []) =>
+      match beval p with
+      | .ok o => ((), s!"ok {o.tree} {showList toString o.bshape} {o.rows} {o.cols} {showVals o}")
+      | .error e => ((), s!"err {showErr e}")
+    | _ => ((), "bad-line")
   | ws =>
     match pExpr ws with
     | some (.ok o, []) => ((), s!"ok {o.tree} {showList toString o.bshape} {o.rows} {o.cols} {showVals o}")
